@@ -80,7 +80,7 @@ def _matmul(A, B):
     return [[sum(F(a) * F(b) for a, b in zip(row, col)) for col in zip(*B)] for row in A]
 
 
-def make_instance(rng, *, kind=None, D=None, K=None, lmode=None, near=None, T=None, maxiter=None, x0_is_mean=None):
+def make_instance(rng, *, kind=None, D=None, K=None, lmode=None, near=None, T=None, maxiter=None, x0_is_mean=None, strong=False, mrange=3):
     """one seeded instance; resampled until J(x0) L has full row rank (the spec's restriction)"""
     for _ in range(200):
         d = rng.randint(2, 4) if D is None else D
@@ -88,7 +88,7 @@ def make_instance(rng, *, kind=None, D=None, K=None, lmode=None, near=None, T=No
         knd = rng.choice(["affine", "quad", "quad"]) if kind is None else kind
         lm = rng.choice(LMODES) if lmode is None else lmode
         nr = (rng.random() < 0.5) if near is None else near
-        m = [rng.randint(-3, 3) for _ in range(d)]
+        m = [rng.randint(-mrange, mrange) for _ in range(d)]
         same = (rng.random() < 0.8) if x0_is_mean is None else x0_is_mean
         x0 = list(m) if same else [v + rng.randint(-1, 1) for v in m]
         L = _factor(rng, d, lm)
@@ -96,10 +96,11 @@ def make_instance(rng, *, kind=None, D=None, K=None, lmode=None, near=None, T=No
         qden = 1
         Q = [[[F(0)] * d for _ in range(d)] for _ in range(k)]
         if knd == "quad":
-            qden = rng.choice([1, 1, 4, 16])
+            qden = 1 if strong else rng.choice([1, 1, 4, 16])
             for kk in range(k):
-                for _ in range(rng.randint(1, 2)):
-                    Q[kk][rng.randrange(d)][rng.randrange(d)] = F(rng.choice([-1, 1]), qden)
+                # strong: a less mild nonlinearity (residual and increment of comparable size after a step)
+                for _ in range(rng.randint(2, 4) if strong else rng.randint(1, 2)):
+                    Q[kk][rng.randrange(d)][rng.randrange(d)] = F(rng.choice([-2, -1, 1, 2] if strong else [-1, 1]), qden)
             if all(all(v == 0 for row in Qk for v in row) for Qk in Q):
                 continue
         if nr:
@@ -158,6 +159,60 @@ def from_json(obj):
             out[k] = dec_(v, True)
         else:
             out[k] = v
+    return out
+
+
+# ------------------------------------------------------------------ guard-band instances (two phases)
+T_PHASE1 = 2**20  # phase 1: a tolerance so small that only an exactly zero residual stops the exact iteration
+BAND_KINDS = ("fx_band", "dx_above", "dx_below")
+
+
+def _isqrt_candidates(lo, hi):
+    """integers T >= 2 with lo < T^2 < hi (exact, Fractions), nearest to the geometric middle first"""
+    if lo <= 0 or hi <= lo:
+        return []
+    mid = (float(lo) * float(hi)) ** 0.25
+    if not (mid < 2.0**30):
+        return []
+    t0 = int(round(mid))
+    return [t for t in (t0, t0 - 1, t0 + 1, t0 - 2, t0 + 2) if t >= 2 and lo < F(t * t) < hi]
+
+
+def band_instances(rng, base, spec, *, margin=F(1, 1000)):
+    """Phase 2.  `spec` is the exact behaviour of `base` under the tolerance 1/T_PHASE1 (the iterates do not depend on
+    the tolerance).  For every iterate k >= 1 whose guard evaluates in 32 bits choose an integer T (tol = 1/T) that puts
+      fx_band : |fx_k|^2 strictly inside (K/T^2, D/T^2)   and |dx_k|^2 above D/T^2      -> the loop must continue
+      dx_above: |dx_k|^2 inside (D/T^2, 2D/T^2)           and |fx_k|^2 above K/T^2      -> the loop must continue
+      dx_below: |dx_k|^2 inside (max(K, D/2)/T^2, D/T^2)  and |fx_k|^2 above K/T^2      -> the loop must stop ("stalled")
+    every comparison of the whole prefix 0..k at least `margin` (relative) away from its threshold, budget > k."""
+    D, K = base["D"], base["K"]
+    states = spec["states"]
+    up, dn = 1 + margin, 1 - margin
+    out = []
+    k = 1
+    while k in states and k <= 3 and not states[k]["blocked"] and not states[k - 1]["blocked"]:
+        f, d = states[k]["n2fx"], states[k]["n2dx"]
+        if f == 0 or d == 0:
+            break
+        windows = {
+            "fx_band": (K / f * up, D / f * dn),
+            "dx_above": (D / d * up, 2 * D / d * dn),
+            "dx_below": (max(F(K), F(D, 2)) / d * up, D / d * dn),
+        }
+        for kind, (lo, hi) in windows.items():
+            for T in _isqrt_candidates(lo, hi):
+                T2 = F(T * T)
+                # every earlier guard continues, clearly
+                if any(not (states[q]["n2fx"] * T2 > K * up and states[q]["n2dx"] * T2 > D * up) for q in range(k)):
+                    continue
+                # the other clause at k is decided clearly, and so that the banded clause is the deciding one
+                if kind == "fx_band" and not d * T2 > D * up:
+                    continue
+                if kind != "fx_band" and not f * T2 > K * up:
+                    continue
+                out.append(dict(base, T=T, maxiter=rng.randint(k + 1, 4), band=kind, band_k=k))
+                break
+        k += 1
     return out
 
 
@@ -385,7 +440,7 @@ def _borderline(st, inst, margin=1e-6):
 def check_instance(inst, spec, *, tol=1e-9, with_default_loop=True):
     """replay one instance; returns (list of (key, detail), info dict)"""
     bad = []
-    info = {"compared_states": 0, "returned": False, "borderline": False, "map": False, "filter_update": False, "max_relerr": 0.0, "range_checked": 0}
+    info = {"compared_states": 0, "returned": False, "borderline": False, "map": False, "filter_update": False, "max_relerr": 0.0, "range_checked": 0, "guards_compared": []}
 
     def cmp(key, got, want, what=""):
         err = maxerr(got, want)
@@ -431,6 +486,7 @@ def check_instance(inst, spec, *, tol=1e-9, with_default_loop=True):
         if _borderline(st, inst):
             info["borderline"] = True
             break
+        info["guards_compared"].append(k)
         if r["cont"] != st["cont"]:
             bad.append(("guard", f"k={k}: the routine {'continues' if r['cont'] else 'stops'}, the specification {'continues' if st['cont'] else 'stops'} (|fx|^2={float(st['n2fx']):.3e} |dx|^2={float(st['n2dx']):.3e} cond1={st['cond1']} cond3={st['cond3']} maxiter={inst['maxiter']} tol=1/{inst['T']})"))
             diverged = True
